@@ -303,7 +303,7 @@ func finVerify(st *State, fs *finState, f []string) Result {
 	cts := finCertTs(f[4], ts)
 	var oracle []string
 	sound, soundPrimary := false, false
-	sameKeys := false // some evaluated key vector selects exactly the keys that signed
+	sameKeys := false // some evaluated key vector selects exactly the set of keys that signed
 	hasSig := 0
 	var sigN string = "0"
 	if cs != nil {
@@ -331,9 +331,14 @@ func finVerify(st *State, fs *finState, f []string) Result {
 				continue
 			}
 			if signed != nil && len(signed.keys) == len(idx) {
+				// the aggregate key is a plain sum: a certificate is bound to the SET of keys
+				set := map[crypto.Key]bool{}
+				for _, k := range signed.keys {
+					set[k] = true
+				}
 				eq := true
-				for j, i := range idx {
-					if *publics[i] != signed.keys[j] {
+				for _, i := range idx {
+					if !set[*publics[i]] {
 						eq = false
 					}
 				}
